@@ -16,6 +16,9 @@ R9  "wait on / free concurrently": nsync_note_free requires an empty waiter list
     record is therefore appended to n->waiters only in a critical section of n's mutex in which n was found not notified (= C08.R6 restricted
     to the waiter list) - a record linked onto an already drained note is never unlinked by a notifier and is still there, dead, when the
     note is freed.
+R10 the disconnect protocol's own state - a note's parent pointer, child list and disconnecting count - is read and written only with that note's
+    mutex held (= C08.R5 for these fields): an unlocked peek at child->disconnecting can see 0 just before the child's disconnector raises
+    it, and the notifier then unlinks the child under that thread's feet - its cached parent is freed while it still means to lock it.
 R6  a notifier performs the unlock-n / lock-cached-parent step only if it raised n->disconnecting from zero (path-sensitive: the count read
     under n's mutex is abstracted to {0, non-zero}); otherwise a second disconnector can unlink n, the parent is freed, and the stale pointer is
     locked (finding F5, repaired).
@@ -150,6 +153,18 @@ def run(ctx, rep):
                                       site='%s/stale-waiter-registration' % r.inst.fn.name))
     if n9 == 0:
         raise AnalysisBroken('C09.R9: no append to a note waiter list seen')
+    rep.rule('C09.R10', 'parent / children / disconnecting of a note are accessed only under that note\'s mutex')
+    n10 = 0
+    for r in eng.records:
+        if r.kind == 'access' and r.field in ('nsync_note_s_.parent', 'nsync_note_s_.children', 'nsync_note_s_.disconnecting'):
+            n10 += 1
+            ok = r.obj.base.startswith('heap:') or holds(r.held, r.obj)
+            rep.instance('C09.R10', '%s of %s at %s [%s]' % (r.access, r.field, r.where(), r.entry)); rep.oblig('C09.R10', ok)
+            if not ok:
+                rep.violate(Violation('C09.R10', r.where(), '%s of %s without holding that note\'s mutex (held: %s): the disconnect protocol relies on this state changing only inside the note\'s critical sections - a decision taken on an unlocked read (e.g. "nobody is disconnecting this child") can be stale by the time it is acted on, and the thread it overlooked is left with a pointer to a parent that gets freed [entry %s]' % (r.access, r.field, [m.base for m in r.held] or 'nothing', r.entry),
+                                      site='%s/unprotected-%s' % (r.inst.fn.name, r.field.split('.')[1])))
+    if n10 == 0:
+        raise AnalysisBroken('C09.R10: no access to the disconnect state seen')
     rep.floor('C09.R1', 6)
     rep.floor('C09.R2', 2)
     rep.floor('C09.R3', 1)
